@@ -165,9 +165,19 @@ func (c *Ctx) DoRaw(op string, raw json.RawMessage) any {
 // DoParallel runs op on every input with the given number of workers and emits the lines
 // in input order.
 func (c *Ctx) DoParallel(op string, ins []any, workers int) {
-	f := ops[c.Area+"."+op]
-	if f == nil {
-		panic("no op " + c.Area + "." + op)
+	opsOf := make([]string, len(ins))
+	for i := range opsOf {
+		opsOf[i] = op
+	}
+	c.DoParallelOps(opsOf, ins, workers)
+}
+
+// DoParallelOps is DoParallel with an operation per input.
+func (c *Ctx) DoParallelOps(opsOf []string, ins []any, workers int) {
+	for _, op := range opsOf {
+		if ops[c.Area+"."+op] == nil {
+			panic("no op " + c.Area + "." + op)
+		}
 	}
 	raws := make([]json.RawMessage, len(ins))
 	impls := make([]any, len(ins))
@@ -186,6 +196,7 @@ func (c *Ctx) DoParallel(op string, ins []any, workers int) {
 		go func(i int) {
 			defer wg.Done()
 			defer func() { <-sem }()
+			f := ops[c.Area+"."+opsOf[i]]
 			if p := Recover(func() { impls[i] = f(c, raws[i]) }); p != "" {
 				impls[i] = map[string]string{"panic": p}
 				c.E.Count("panic")
@@ -194,7 +205,7 @@ func (c *Ctx) DoParallel(op string, ins []any, workers int) {
 	}
 	wg.Wait()
 	for i := range ins {
-		c.E.Emit(op, raws[i], impls[i])
+		c.E.Emit(opsOf[i], raws[i], impls[i])
 	}
 }
 
